@@ -1700,6 +1700,27 @@ void chk_map_iteration(seq const &s)
       VF_COUNT("observed/map_iteration_second/unexpected");
       vf::observation(std::string("map_iteration_second<") + kn + "> leaves a different map than the filter loop");
     }
+    // judged: the action receives the MAPPED OBJECT OF THE MAP (documented: "like map_iteration, but only the mapped
+    // object is passed"): what it writes through the reference is in the map afterwards
+    {
+      MapT d3(c);
+      lib();
+      fcppt::algorithm::map_iteration_second(d3, [&](int &v) {
+        bool const rem = P(p, v);
+        if (!rem)
+          v += 10;
+        return rem ? update_action::remove : update_action::keep;
+      });
+      auto got3 = to_pairs(d3);
+      std::vector<std::pair<int, int>> want3;
+      for (auto const &kv : to_pairs(c))
+        if (!P(p, kv.second))
+          want3.emplace_back(kv.first, kv.second + 10);
+      std::sort(got3.begin(), got3.end());
+      std::sort(want3.begin(), want3.end());
+      expect(got3, want3, "map_iteration_second", kn, "kept-values-written-through-the-reference", par("pred", p));
+      VF_COUNT("judged/map_iteration_second-writes");
+    }
   }
   for (unsigned mask = 0; mask < (1U << n); ++mask)
   {
